@@ -34,6 +34,33 @@ def setup(P):
     import param
     _st['param'] = param
 
+    class Choice(param.Parameter):
+        """A user-defined Parameter type: one of the declared choices, compared without regard to case. What it validates against
+        is derived from the declared attribute in the documented hook for that, _update_state."""
+        __slots__ = ['choices', '_folded']
+        _slot_defaults = dict(param.Parameter._slot_defaults, choices=('red', 'green'), _folded=None)
+
+        def __init__(self, default=param.parameterized.Undefined, *, choices=param.parameterized.Undefined, **kw):
+            self.choices = choices
+            self._folded = param.parameterized.Undefined
+            super().__init__(default=default, **kw)
+            self._update_state()
+            self._validate(self.default)
+
+        def _update_state(self):
+            self._folded = frozenset(c.casefold() for c in self.choices)
+
+        def _validate_value(self, val, allow_None):
+            if val is None and allow_None:
+                return
+            if not isinstance(val, str) or val.casefold() not in (self._folded or ()):
+                raise ValueError(f'{val!r} is not one of {self.choices!r}')
+
+        def _validate(self, val):
+            self._validate_value(val, self.allow_None)
+    # (looked up by name like the library's own types)
+    param.Choice = Choice
+
 
 COMMON = ['default', 'doc', 'precedence', 'constant', 'readonly', 'allow_None', 'instantiate', 'per_instance',
           'allow_refs', 'nested_refs', 'pickle_default_value', 'label']
@@ -41,8 +68,10 @@ EXTRA = {'Parameter': [], 'Boolean': [], 'Number': ['bounds', 'inclusive_bounds'
          'Integer': ['bounds', 'inclusive_bounds', 'softbounds', 'step'], 'String': ['regex'], 'Tuple': ['length'],
          'List': ['bounds'], 'Magnitude': ['bounds', 'inclusive_bounds', 'softbounds', 'step'], 'NumericTuple': ['length'],
          'Range': ['length', 'bounds', 'inclusive_bounds', 'softbounds', 'step'], 'Color': ['allow_named'],
-         'ClassSelector': ['class_', 'is_instance'], 'Dict': ['is_instance'], 'Selector': ['objects', 'check_on_set']}
-TYPE_MOVES = {'Parameter': ['Number', 'String', 'Boolean', 'Tuple', 'List', 'Integer', 'Color', 'ClassSelector', 'Range', 'Dict', 'Selector'],
+         'ClassSelector': ['class_', 'is_instance'], 'Dict': ['is_instance'], 'Selector': ['objects', 'check_on_set'],
+         'Choice': ['choices']}
+TYPE_MOVES = {'Parameter': ['Number', 'String', 'Boolean', 'Tuple', 'List', 'Integer', 'Color', 'ClassSelector', 'Range', 'Dict', 'Selector', 'Choice'],
+              'Choice': ['Parameter', 'Choice', 'String'],
               'Selector': ['Parameter', 'Selector'],
               'Number': ['Integer', 'Parameter', 'String', 'Magnitude'],
               'Integer': ['Number', 'Parameter'], 'String': ['Parameter', 'Number', 'Color'], 'Boolean': ['Parameter', 'Integer'],
@@ -68,6 +97,8 @@ VALUES = {
     ('Magnitude', 'bounds'): [(0, 10), (0.0, 1.0), (0.3, None), None],
     ('Range', 'bounds'): [(0, 10), (2, None), (None, 4), None, (0, 5)],
     ('Selector', 'default'): [1, 2, 'a', None, 5],
+    ('Choice', 'default'): ['red', 'GREEN', 'blue', None, 'Blue'],
+    'choices': [('red', 'green'), ('blue',), ('Red', 'BLUE', 'x')],
     'objects': [[1, 2, 3], [2, 3], ['a', 'b', 1], [], [5]],
     'check_on_set': [True, False],
     'class_': [int, str, (int, str), (int, float), tuple],
@@ -205,7 +236,7 @@ def spec_type(tname, merged):
 
 def cfg_of(tname, merged):
     cfg = dict(allow_None=merged.get('allow_None'))
-    for k in ('bounds', 'inclusive_bounds', 'regex', 'length', 'step', 'class_', 'is_instance', 'allow_named', 'objects', 'check_on_set'):
+    for k in ('bounds', 'inclusive_bounds', 'regex', 'length', 'step', 'class_', 'is_instance', 'allow_named', 'objects', 'check_on_set', 'choices'):
         if k in merged and merged[k] is not UNDEF:
             cfg[k] = merged[k]
     if tname == 'Dict':
